@@ -182,6 +182,34 @@ def sub_ticks(col, budget, seed, tier, shard, nshards):
 _ENV = {}
 
 
+class _FakeAccount:
+    def __init__(self, cur):
+        self.cur = cur
+        self.fail = False
+
+    def get_account_details(self):
+        from betfairlightweight import BetfairError
+        from betfairlightweight.resources.accountresources import AccountDetails
+
+        if self.fail:
+            raise BetfairError("transient")
+        return AccountDetails(discountRate=0, currencyCode=self.cur)
+
+    def get_account_funds(self):
+        from betfairlightweight import BetfairError
+        from betfairlightweight.resources.accountresources import AccountFunds
+
+        if self.fail:
+            raise BetfairError("transient")
+        return AccountFunds(availableToBetBalance=1000.0, discountRate=0, exposure=0.0, exposureLimit=-10000.0,
+                            pointsBalance=0, retainedCommission=0.0, wallet="UK")
+
+
+class _FakeBettingClient:
+    def __init__(self, cur):
+        self.account = _FakeAccount(cur)
+
+
 def _env():
     """one framework, controls and clients per worker process"""
     if _ENV:
@@ -205,6 +233,14 @@ def _env():
             bc.account_details = AccountDetails(discountRate=0, currencyCode=cur)
             cl[("sim", cur, mbv)] = sc
             cl[("bf", cur, mbv)] = bc
+            # a live client that learnt its account through the real polling path: successful poll at login, then a
+            # poll in which both account calls fail (BetfairError) - the account's currency rules are unchanged
+            pc = clients.BetfairClient(betting_client=_FakeBettingClient(cur), username="p%s%s" % (cur, mbv), min_bet_validation=mbv)
+            pc.update_account_details()
+            pc.betting_client.account.fail = True
+            pc.update_account_details()
+            pc.betting_client.account.fail = False
+            cl[("bfpoll", cur, mbv)] = pc
     _ENV["clients"] = cl
     return _ENV
 
@@ -362,8 +398,10 @@ def sub_validation_enum(col, budget, seed, tier, shard, nshards):
     for cur in curs:
         c = env["currencies"][cur]
         for mbv in (True, False):
-            for cl in ("sim", "bf"):
+            for cl in ("sim", "bf", "bfpoll"):
                 if cl == "bf" and tier == "quick" and cur not in ("GBP", "HUF", "AUD"):
+                    continue
+                if cl == "bfpoll" and tier == "quick" and cur not in ("AUD", "SEK", "USD"):
                     continue
                 for side in ("BACK", "LAY"):
                     for price in probe_prices:
